@@ -3,7 +3,7 @@ from __future__ import annotations
 
 import ast
 
-from ..core import call_name, kwarg, norm
+from ..core import call_name, ctext, kwarg, norm
 from ..norm import Normaliser, single_defs
 from ..util import assigned_targets, const_num
 
@@ -90,7 +90,22 @@ def _h1(ctx):
                 ctx.check(isinstance(st.op, ast.Mult), R, f, st, f"`{norm(st)}` is not a multiplication: an additive offset in a component cost breaks proportional scaling", f"{local} scaled multiplicatively")
             if isinstance(st, ast.Assign) and isinstance(st.targets[0], ast.Name) and st.targets[0].id == local and isinstance(st.value, ast.BinOp) and isinstance(st.value.op, (ast.Add, ast.Sub)) and local in norm(st.value):
                 ctx.bad(R, f, st, f"`{norm(st)}` adds an offset to {local}")
-    ctx.floor(R, 20)
+        # every scale factor is applied on every path: the only test that may skip `local *= F` is F's own neutral test (F != 1)
+        cfg = ctx.cfg(f)
+        sinks = [st for st in f.stmts() if isinstance(st, ast.Assign) and isinstance(st.value, ast.Name) and st.value.id == local and isinstance(st.targets[0], ast.Attribute)]
+        ctx.require(len(sinks) >= 1, R, f"{qual}: store of `{local}` into the component/action")
+        common = None
+        for st in sinks:
+            cs = {(norm(h.ast.test), lab) for h, lab in cfg.control_conditions(cfg.node_of(st)) if h.kind == "if"}
+            common = cs if common is None else common & cs
+        for st in f.stmts():
+            if isinstance(st, ast.AugAssign) and isinstance(st.target, ast.Name) and st.target.id == local and isinstance(st.op, ast.Mult):
+                F = norm(st.value)
+                own = {(ctext(f"{F} != 1"), "true"), (ctext(f"{F} == 1"), "false")}
+                extra = {c for c in ((norm(h.ast.test), lab) for h, lab in cfg.control_conditions(cfg.node_of(st)) if h.kind == "if")} - common - own
+                ctx.check(not extra, R, f, st, f"`{norm(st)}` is skipped unless {sorted(extra)}: a scale factor that is not applied on every path makes the result ignore that parameter "
+                          "(e.g. an `elif` chaining two independent scales applies only the first)", f"`{F}` applied on every path (skipped only when it equals 1)")
+    ctx.floor(R, 28)
 
 
 def _h2(ctx):
@@ -132,6 +147,8 @@ def check(ctx):
 
 
 VARIANTS = [
+    {"kind": "F", "name": "action-scale-elif", "rule": "C19-H1", "edits": [(COMP, "            if action.energy_scale != 1:\n                energy *= action.energy_scale", "            elif action.energy_scale != 1:\n                energy *= action.energy_scale")]},
+    {"kind": "S", "name": "scale-guard-dropped", "edits": [(COMP, "            if action.energy_scale != 1:\n                energy *= action.energy_scale\n                messages.append(f\"Scaling {self.name} energy by {action.energy_scale=}\")", "            energy *= action.energy_scale")]},
     {"kind": "F", "name": "energy-plus-epsilon", "rule": "C19-H1", "edits": [(EN, "        energy_result[key] = counts.total * energy_per_ac", "        energy_result[key] = counts.total * energy_per_ac + 1e-9")]},
     {"kind": "F", "name": "leak-latency-squared", "rule": "C19-H1", "edits": [(EN, "            component_obj.total_leak_power\n            * overall_latency\n", "            component_obj.total_leak_power\n            * overall_latency ** 2\n")]},
     {"kind": "F", "name": "latency-without-n_instances", "rule": "C19-H1", "edits": [(RM, '        df["Total<SEP>latency"] = overall_latency * n_instances', '        df["Total<SEP>latency"] = overall_latency')]},
